@@ -37,6 +37,18 @@ func allSpecs() map[string]*PropSpec {
 		NotDecided:  "equality of the incremental and the rebuilt view as values over update sequences (needs execution); file-system effects (files unreadable during refresh).",
 		Rules:       []func(*Ctx){ruleT1T2, ruleC12Clear, ruleC12Refresh, ruleMapOrder},
 	})
+	add(&PropSpec{
+		ID:          "C10",
+		Explanation: "G-ANCESTOR: the mark placed in the set tested by the cycle check is removed on every exit of the function that places it (ancestor-stack discipline; otherwise a diamond is a false cycle). G-GUARD: every recursive load is reached only after the membership test that returns on a cycle (termination on cyclic graphs). G-DEPTH: the value compared with the depth limit is the length of the include stack. G-CONTINUE: the loop over include directives has no return/break, and every load error built on the recursion carries the include directive's range. Decided on go/cfg for all include graphs at once.",
+		NotDecided:  "path canonicalisation and glob matching semantics (ResolvePathSafe, doublestar); that each reachable file appears exactly once as a value-level fact (the 'loaded' set is checked only through G-CACHEPATH in C11).",
+		Rules:       []func(*Ctx){ruleLoaderCycle},
+	})
+	add(&PropSpec{
+		ID:          "C11",
+		Explanation: "G-CACHEPATH: every path that records an included file in the result continues to the call that processes that file's own include directives, so a cache hit and a cache miss do the same work; the cache value type holds per-file parse results only. G-INVALIDATE: the didChange and didSave handlers drop the changed file's cache entry on a path not conditioned on a workspace; the invalidation methods mutate the cache under the loader's write lock. G-ANCESTOR/G-GUARD/G-DEPTH as in C10 (cycle verdicts must not depend on history either).",
+		NotDecided:  "equality of results across a call history as values (needs execution); staleness of files changed on disk without an invalidation notification.",
+		Rules:       []func(*Ctx){ruleLoaderCache, ruleLoaderCycle},
+	})
 	return m
 }
 
